@@ -10,6 +10,9 @@
 //! Ops (one per line):
 //!   inotify begin <id>
 //!   inotify watch <wd> <pathhex> <mk>    watch a directory (wd = expected descriptor)
+//!   inotify replace <pathhex>            move the directory at that path aside and create a
+//!                                        new one in its place (the old watch lives on; the
+//!                                        next `watch` of the path gets a NEW descriptor)
 //!   inotify events                       create the `Events` iterator
 //!   inotify poll                         one `Events::poll_next`
 //!   inotify read <rec>…|-                complete the READ with whole records
@@ -138,6 +141,8 @@ enum Expect {
 struct InoCase {
     // ---- generator ----
     g: GenState,
+    /// directories moved aside by `replace`, removed when the case ends
+    aside: Vec<PathBuf>,
     // ---- executor ----
     ring: Option<a10::Ring>,
     rfd: i32,
@@ -193,6 +198,7 @@ impl InoCase {
         };
         InoCase {
             g: GenState::default(),
+            aside: Vec::new(),
             ring: Some(ring),
             rfd,
             watcher: Box::into_raw(Box::new(watcher)),
@@ -309,6 +315,29 @@ impl InoCase {
                 vec!["ok".into()]
             }
             Err(e) => vec![format!("err {}", errname(&e))],
+        }
+    }
+
+    /// The directory at `path` is replaced (an atomic-save style rename): the old
+    /// inode, and the watch on it, live on under another name; a10's table still
+    /// maps the old descriptor to `path`.
+    fn op_replace(&mut self, path: Vec<u8>) -> Vec<String> {
+        if !path.starts_with(BASE.as_bytes()) || path.contains(&0) || path.windows(2).any(|w| w == b"..") || path.last() == Some(&b'/') {
+            return vec!["bad-op".into()];
+        }
+        static N: std::sync::atomic::AtomicU32 = std::sync::atomic::AtomicU32::new(0);
+        let pb = PathBuf::from(OsString::from_vec(path.clone()));
+        let mut aside = path.clone();
+        aside.extend_from_slice(format!(".old{}-{}", std::process::id(), N.fetch_add(1, std::sync::atomic::Ordering::Relaxed)).as_bytes());
+        let aside = PathBuf::from(OsString::from_vec(aside));
+        let _ = std::fs::create_dir_all(&pb);
+        if std::fs::rename(&pb, &aside).is_err() {
+            return vec!["err ENOENT".into()];
+        }
+        self.aside.push(aside);
+        match std::fs::create_dir(&pb) {
+            Ok(()) => vec!["ok".into()],
+            Err(_) => vec!["err".into()],
         }
     }
 
@@ -664,6 +693,9 @@ mod closer {
 
 impl Drop for InoCase {
     fn drop(&mut self) {
+        for d in self.aside.drain(..) {
+            let _ = std::fs::remove_dir_all(d);
+        }
         self.kept.clear();
         self.events = None;
         self.flush_orphan();
@@ -697,6 +729,8 @@ struct GenState {
     malformed: bool,
     /// directory index -> wd
     dir_wd: [Option<i32>; 7],
+    /// the directory was replaced while watched
+    replaced: [bool; 7],
     next_wd: i32,
     /// wds currently in the table (approximately), and those removed.
     known: Vec<i32>,
@@ -712,18 +746,22 @@ struct GenState {
     cookie: u32,
 }
 
+fn dir_path_of(idx: usize) -> &'static [u8] {
+    match idx {
+        0 => b"/w0",
+        1 => b"/w1",
+        2 => b"/sub/w2",
+        3 => b"/w\xfe3",
+        // nested in / parent of / byte-prefix of another watched directory
+        4 => b"/w0/in",
+        5 => b"/sub",
+        _ => b"/w1x",
+    }
+}
+
 fn dir_path(rng: &mut Rng, idx: usize) -> Vec<u8> {
     let mut p = BASE.as_bytes().to_vec();
-    match idx {
-        0 => p.extend_from_slice(b"/w0"),
-        1 => p.extend_from_slice(b"/w1"),
-        2 => p.extend_from_slice(b"/sub/w2"),
-        3 => p.extend_from_slice(b"/w\xfe3"),
-        // nested in / parent of / byte-prefix of another watched directory
-        4 => p.extend_from_slice(b"/w0/in"),
-        5 => p.extend_from_slice(b"/sub"),
-        _ => p.extend_from_slice(b"/w1x"),
-    }
+    p.extend_from_slice(dir_path_of(idx));
     match rng.below(6) {
         0 => p.push(b'/'),
         1 => p.extend_from_slice(b"//"),
@@ -959,6 +997,10 @@ impl Case for InoCase {
                 };
                 self.op_watch(wd, path, mk != 0)
             }
+            ["inotify", "replace", path] => match unhex(path) {
+                Some(path) => self.op_replace(path),
+                None => vec!["bad-op".into()],
+            },
             ["inotify", "events"] => self.op_events(),
             ["inotify", "poll"] => self.op_poll(),
             ["inotify", "read", recs @ ..] if !recs.is_empty() => {
@@ -1161,6 +1203,16 @@ impl InoCase {
             return format!("inotify watch 0 {} 0", hexs(p.as_bytes()));
         }
         let idx = rng.below(7) as usize;
+        // a watched leaf directory is replaced (renamed aside, a new one created): the old watch
+        // and its path stay, the next watch of the same path gets a new descriptor
+        if g.dir_wd[idx].is_some() && matches!(idx, 1 | 2 | 3 | 4 | 6) && rng.chance(1, 4) {
+            feats.push("replace-watched".into());
+            g.dir_wd[idx] = None;
+            g.replaced[idx] = true;
+            let mut p = BASE.as_bytes().to_vec();
+            p.extend_from_slice(dir_path_of(idx));
+            return format!("inotify replace {}", hexs(&p));
+        }
         let wd = match g.dir_wd[idx] {
             Some(wd) => {
                 feats.push("rewatch".into());
@@ -1177,7 +1229,17 @@ impl InoCase {
             g.known.push(wd);
         }
         g.removed.retain(|w| *w != wd);
-        let p = dir_path(rng, idx);
+        // after a replacement mostly the very same spelling (two descriptors, one path)
+        let p = if g.replaced[idx] && rng.chance(2, 3) {
+            let mut p = BASE.as_bytes().to_vec();
+            p.extend_from_slice(dir_path_of(idx));
+            p
+        } else {
+            dir_path(rng, idx)
+        };
+        if g.replaced[idx] {
+            feats.push("rewatch-after-replace".into());
+        }
         if p.last() == Some(&b'/') {
             feats.push("watch-trailing-slash".into());
         }
